@@ -199,6 +199,15 @@ def observe_all(ctx, obj, cases, batch_size=120):
             by_t.setdefault(c["targ"], []).append(i)
         else:
             singles.append(i)
+    if ctx.quick:
+        # quick tier: a not-accepted literal whose verdicts are the same on every target is replayed on x86_64-sysv always and
+        # on the other two targets for one literal in three (TLC still checks all of them; thorough replays all)
+        same = {}
+        for i in singles:
+            c = cases[i]
+            same.setdefault((c["ctx"], lit_bytes(c)), set()).add(vlib.canon([c["decl"], c["impl"]]))
+        singles = [i for i in singles if cases[i]["targ"] == vlib.TARGETS[0] or len(same[(cases[i]["ctx"], lit_bytes(cases[i]))]) > 1
+                   or int(vlib.sha(lit_bytes(cases[i])), 16) % 3 == 0]
     for t, idx in by_t.items():
         for a in range(0, len(idx), batch_size):
             jobs.append((t, idx[a:a + batch_size]))
@@ -232,7 +241,7 @@ def sanitizer_pass(ctx, cases, obs):
     """The accepted cases once more through the ASan+UBSan build (stringconcat sizes its buffer from strlen of the tokens;
     decodechar/utf8dec read ahead): the projection must be the same and no sanitizer report may appear."""
     san = private_build(ctx, "asan")
-    idx = [i for i, c in enumerate(cases) if c["decl"]["o"] == "ok" and c["impl"]["o"] == "ok" and obs[i]["o"] == "ok"]
+    idx = [i for i, c in enumerate(cases) if c["decl"]["o"] == "ok" and c["impl"]["o"] == "ok" and obs[i] and obs[i]["o"] == "ok"]
     if ctx.quick:
         idx = idx[::2]                     # quick tier: every other accepted case
     by_t = {}
@@ -266,6 +275,9 @@ def case_view(case, obs=None):
 
 def judge(ctx, cases, obs, stats):
     for c, o in zip(cases, obs):
+        if o is None:
+            stats["not-replayed(quick)"] = stats.get("not-replayed(quick)", 0) + 1
+            continue
         ctx.count(vlib.sha(lit_bytes(c) + c["targ"].encode() + c["ctx"].encode()), nontrivial=nontrivial(c))
         stats[c["decl"]["o"]] = stats.get(c["decl"]["o"], 0) + 1
         if conforms(o, c["decl"], c):
@@ -584,8 +596,8 @@ def run(ctx):
     obs = observe_all(ctx, obj, cases)
     judge(ctx, cases, obs, stats)
     sanitizer_pass(ctx, cases, obs)
-    ctx.validated(len(cases))
-    for c, o in list(zip(cases, obs))[::len(cases) // 5 + 1]:
+    ctx.validated(sum(1 for o in obs if o is not None))
+    for c, o in [x for x in zip(cases, obs) if x[1] is not None][::len(cases) // 5 + 1]:
         ctx.sample({"source": lit_bytes(c).decode("latin-1"), "targ": c["targ"], "expected": c["decl"], "observed": o})
     ctx.cov["exhaustive"] = True
 
@@ -609,7 +621,7 @@ def run(ctx):
     obs2 = observe_all(ctx, obj, rnd)
     judge(ctx, rnd, obs2, stats)
     sanitizer_pass(ctx, rnd, obs2)
-    ctx.validated(len(rnd))
+    ctx.validated(sum(1 for o in obs2 if o is not None))
     ctx.cov["random_literals"] = len(rnd)
     for c, o in list(zip(rnd, obs2))[::len(rnd) // 2 + 1]:
         ctx.sample({"source": lit_bytes(c).decode("latin-1"), "targ": c["targ"], "expected": c["decl"], "observed": o})
